@@ -313,6 +313,23 @@ structure InvFilters (α : Type) where
   g1a : List α
   g1b : List α
 
+/-- one step (one level ≥ 2) of the coarse-to-fine loop of `DTCWTInverse.forward`: `hz = (band-pass or none, the
+band size the module reads from its shape)`; `none` low-pass = nothing at this scale or coarser ones so far -/
+def dtcwtInvStep [Add α] [Sub α] [Neg α] [Mul α] [OfNat α 0] (s : α) (f : InvFilters α)
+    (low : Option (Img α)) (hz : Option (List (Cplx α)) × (Nat × Nat)) : Option (Option (Img α)) :=
+  match hz.1, low with
+  | some o, some l => do
+    let l' := cropToHighs l hz.2.1 hz.2.2
+    let y ← invJ2 s f.g0a f.g1a f.g0b f.g1b (some l') (some o)
+    some (some y)
+  | some o, none => do
+    let y ← invJ2 s f.g0a f.g1a f.g0b f.g1b none (some o)
+    some (some y)
+  | none, some l => do
+    let y ← invJ2 s f.g0a f.g1a f.g0b f.g1b (some l) none
+    some (some y)
+  | none, none => some none      -- `continue`
+
 /-- `DTCWTInverse.forward((low, highs))` for one channel: coarse-to-fine loop with the size
 fix-ups; `highs` finest first, `none` = absent (None, empty tensor or 0-d placeholder, all
 normalised to None by the module); `sizes6[j]` is what the module reads as
@@ -324,19 +341,7 @@ def DTCWTInverse [Add α] [Sub α] [Neg α] [Mul α] [OfNat α 0] (s : α) (sym 
   if low.isNone ∧ highs.all (·.isNone) then none else   -- nothing to reconstruct from: ValueError
   match highs, sizes6 with
   | h0 :: rest, sz0 :: szs => do
-    let lowJ ← (rest.zip szs).reverse.foldlM (fun (low : Option (Img α)) (hz : Option (List (Cplx α)) × (Nat × Nat)) =>
-        match hz.1, low with
-        | some o, some l => do
-          let l' := cropToHighs l hz.2.1 hz.2.2
-          let y ← invJ2 s f.g0a f.g1a f.g0b f.g1b (some l') (some o)
-          some (some y)
-        | some o, none => do
-          let y ← invJ2 s f.g0a f.g1a f.g0b f.g1b none (some o)
-          some (some y)
-        | none, some l => do
-          let y ← invJ2 s f.g0a f.g1a f.g0b f.g1b (some l) none
-          some (some y)
-        | none, none => some none) low      -- nothing at this scale or coarser ones: `continue`
+    let lowJ ← (rest.zip szs).reverse.foldlM (dtcwtInvStep s f) low
     match h0, lowJ with
     | some o, some l =>
       let l' := cropToHighs l sz0.1 sz0.2
